@@ -121,8 +121,16 @@ def search_generic(mismatches, outdir):
         cands = kept
     reqs, idx = [], []
     many = bool(cands) and cands[0]["request"].startswith(("(tau_star", "(mu", "(natural", "(strong"))
-    for m in cands[:(200 if many else 40)]:
-        q = cex_request(m["request"], m["impl"], tries=(120 if many else 400))
+    # several disagreements are the same shape (one formula under three portfolios / strategies): keep one per output pair
+    seen, uniq = set(), []
+    for m in cands:
+        k = (m.get("impl"), m.get("model"))
+        if k not in seen:
+            seen.add(k)
+            uniq.append(m)
+    cands = uniq
+    for m in cands[:(200 if many else 160)]:
+        q = cex_request(m["request"], m["impl"], tries=(120 if many else 300))
         if q:
             reqs.append(q)
             idx.append(m)
@@ -415,7 +423,7 @@ def replay(pid, path):
 
 
 HOOK_COMMITS = ["ffc8b2b"]
-FIX_COMMITS = ["ca17dcd", "3401bdf", "db0baa0", "3af4e16", "b9b9933", "8154c20", "f1b4fb0", "9b44a2c", "d0885ee"]
+FIX_COMMITS = ["ca17dcd", "3401bdf", "db0baa0", "3af4e16", "b9b9933", "8154c20", "f1b4fb0", "9b44a2c", "d0885ee", "c8750dd"]
 NOT_YET = {}
 
 PROOF_NOTE = ("Trusted: Lean kernel; Semantics/*.lean as the specification; the correspondence harness and serialisers; "
@@ -654,8 +662,9 @@ PROPS = {
         "rule": "as C02: tasks with proof outlines (lemmas with every direction annotation, definitions incl. malformed ones, inductive lemmas incl. induction variable bound inside F and negative start) "
                 "vs the Lean model of ProofOutline::from_specification / inductive_lemma / definition and of the outline part of the problem assembly",
         "level_text": "Full for induction and sequencing: induction_sound (the two obligations imply F for every integer >= n, for every formula incl. rebinding of the induction variable), "
-                      "inductiveLemma_shape, definition_accepted_implies, outline_sequencing (lemma k's problems use the direction's axioms and the consequences of lemmas < k) proved; "
-                      "one literal-reading known finding (definition predicate may occur in an earlier lemma).",
+                      "inductiveLemma_shape, definition_accepted_implies, definition_conservative (every interpretation can be changed on the defined predicate alone so that an accepted "
+                      "definition holds - so no accepted definition makes a claim about the task's predicates available), outline_sequencing (lemma k's problems use the direction's axioms and the "
+                      "consequences of lemmas < k) proved; head arguments pairwise distinct since fix c8750dd; one literal-reading known finding (definition predicate may occur in an earlier lemma), harmless by definition_conservative.",
         "level_note": PROOF_NOTE,
         "technique": "Lean 4 proof (integer induction + substitution lemma; fold invariants) + differential correspondence",
         "design_ref": "DESIGN.md 6/C13",
